@@ -5,6 +5,7 @@ import Driver.Store
 import Driver.Codec
 import Driver.Compress
 import Driver.Csv
+import Driver.Parquet
 open Lean Drv
 
 def dispatch (cmd : String) (j : Json) : Except String Json :=
@@ -26,6 +27,7 @@ def dispatch (cmd : String) (j : Json) : Except String Json :=
   | "z_wrap" => cmdZWrap j
   | "csv_dump" => cmdCsvDump j
   | "csv_parse" => cmdCsvParse j
+  | "parquet" => cmdParquet j
   | _ => throw "bad-case"
 
 def handleLine (line : String) : String :=
